@@ -119,6 +119,11 @@ theorem consumes_nestedN (f : Nat) (t : Token) (ts : List Token) (a : Sexp)
   have := h (setToks c (ts ++ rest)) rest ex hn rfl
   simpa [setToks] using this
 
+/-- the look-ahead after a sign at a non-empty complete queue -/
+theorem runA_signPeek {α : Type} (k : Token → Prog α) (c : LexCore) (ex : List Sexp) (t : Token) (ts : List Token)
+    (h : c.tokens = t :: ts) : runA (.signPeek k) (tv c ex) = runA (k t) (tv c ex) := by
+  simp only [runA, tv, peekWaitA, headIf_zero_cons c t ts h]
+
 /-! ## single tokens -/
 
 /-- the token types of the non-bracket tokens -/
@@ -150,7 +155,7 @@ theorem parseExprTok_symbol (f : Nat) (tk : Token) (h : tk.typ = .symbol) (h1 : 
   rfl
 
 theorem parseExprTok_sign (f : Nat) (tk : Token) (h : tk.typ = .symbol) (hs : tk.str = ['-'] ∨ tk.str = ['+']) :
-    parseExprTok (f + 1) tk = (waitPeek 0).bind fun tok2 =>
+    parseExprTok (f + 1) tk = signPeek.bind fun tok2 =>
       if (tok2.typ == .float && (tok2.str == "Inf".toList || tok2.str == "inf".toList)) = true then
         popTok.bind fun _ =>
           match NumLit.parseFloat (tk.str ++ "Inf".toList) with
@@ -178,8 +183,8 @@ theorem parse_tok (t : Tok) (h : atomOK t = true) (f : Nat) :
       intro c rest ex hn hc
       obtain ⟨t2, r2, hr, hinf⟩ := hn
       have hq : c.tokens = t2 :: r2 := by simpa [hr] using hc
-      show runA (Prog.waitPeek 0 fun x => (Prog.pure x).bind _) (tv c ex) = _
-      rw [runA_waitPeek0 _ c ex t2 r2 hq]
+      show runA (Prog.signPeek fun x => (Prog.pure x).bind _) (tv c ex) = _
+      rw [runA_signPeek _ c ex t2 r2 hq]
       have hinf' : (t2.typ == TokType.float && (t2.str == "Inf".toList || t2.str == "inf".toList)) = false := hinf
       have hset : setToks c rest = c := by
         rw [hr, ← hq]; cases c; rfl
